@@ -147,6 +147,9 @@ func mergeRuns(dst, src *HarnessRun) {
 	dst.IfConverted += src.IfConverted
 	dst.AllocCuts += src.AllocCuts
 	dst.CacheHits += src.CacheHits
+	dst.CrossChecked += src.CrossChecked
+	dst.CrossAgreed += src.CrossAgreed
+	dst.CrossUnknown += src.CrossUnknown
 	dst.Sliced += src.Sliced
 	dst.Violations = append(dst.Violations, src.Violations...)
 	for k, v := range src.ViolCount {
@@ -259,6 +262,9 @@ func runAll(l *loaded, hs []harnessInfo, jobs int) ([]*HarnessRun, []string, sol
 			for hi, in := range interps {
 				mergeRuns(results[hi], in.h)
 				in.solver.Close()
+				if in.solver2 != nil {
+					in.solver2.Close()
+				}
 				q := &hq[hi]
 				q.wall += in.solver.wall.Seconds()
 				q.sat += in.solver.nSat
